@@ -49,6 +49,8 @@ impl<'a, R: Read> Scanner<'a, R> {
     /// Consumes all space characters until EOS or non space character is found
     pub fn consume_spaces(&mut self) -> Result<(), Error> {
         loop {
+            #[cfg(feature = "verif-hooks")]
+            crate::haystack::verif_hooks::tick(crate::haystack::verif_hooks::SITE_LOOP);
             if !self.is_space() {
                 return Ok(());
             }
@@ -66,6 +68,8 @@ impl<'a, R: Read> Scanner<'a, R> {
     /// Consumes all white space characters, including new lines
     pub fn consume_white_spaces(&mut self) -> Result<(), Error> {
         loop {
+            #[cfg(feature = "verif-hooks")]
+            crate::haystack::verif_hooks::tick(crate::haystack::verif_hooks::SITE_LOOP);
             if !self.is_white_space() {
                 return Ok(());
             }
